@@ -318,3 +318,57 @@ def replay_c13(ctx, obl, info, vals):
     if rc == 1 and line:
         return 'REPLAYED on the real code (native build of this tree):\n  %s\n  => violates the property' % line[0]
     return None
+
+
+# ---- C05.FLAGS: what the library really installs ----------------------------------------------------
+C05_MAIN = r'''
+fn main() {
+    let sig = signal_hook::consts::SIGUSR1;
+    unsafe {
+        signal_hook::low_level::register(sig, || ()).unwrap();
+        let mut cur: libc::sigaction = std::mem::zeroed();
+        libc::sigaction(sig, std::ptr::null(), &mut cur);
+        let want = libc::SA_RESTART | libc::SA_SIGINFO;
+        let got = cur.sa_flags & (libc::SA_RESTART | libc::SA_SIGINFO | libc::SA_RESETHAND | libc::SA_NODEFER);
+        println!("after the first registration of SIGUSR1 the installed disposition has sa_flags = {:#x} (SA_RESTART {} , SA_SIGINFO {}); expected SA_RESTART|SA_SIGINFO = {:#x}", cur.sa_flags, if cur.sa_flags & libc::SA_RESTART != 0 { "set" } else { "MISSING" }, if cur.sa_flags & libc::SA_SIGINFO != 0 { "set" } else { "MISSING" }, want);
+        std::process::exit(if got == want { 0 } else { 1 });
+    }
+}
+'''
+
+
+def replay_c05_flags(ctx, obl, info, vals):
+    rc, out = native_run(ctx['scratch'], 'c05', C05_MAIN)
+    line = [l for l in out.splitlines() if l.startswith('after the first registration')]
+    if rc == 1 and line:
+        return 'REPLAYED on the real code (native build of this tree):\n  %s' % line[0]
+    return None
+
+
+# ---- C16.SEQ-TERM / UNBLOCK: emulation from inside the signal's own handler ----------------------------
+C16H_MAIN = r'''
+fn main() {
+    let sig = signal_hook::consts::SIGTERM;
+    unsafe {
+        let pid = libc::fork();
+        if pid == 0 {
+            signal_hook::low_level::register(sig, move || { let _ = signal_hook::low_level::emulate_default_handler(sig); }).unwrap();
+            libc::raise(sig); // inside the handler SIGTERM is blocked
+            libc::_exit(0);
+        }
+        let mut st = 0;
+        libc::waitpid(pid, &mut st, 0);
+        let how = if libc::WIFSIGNALED(st) { format!("killed by signal {}", libc::WTERMSIG(st)) } else { format!("exited with {}", libc::WEXITSTATUS(st)) };
+        println!("emulate_default_handler(SIGTERM) called from inside SIGTERM's own handler: the process was {}; the kernel default is: killed by signal 15", how);
+        std::process::exit(if libc::WIFSIGNALED(st) && libc::WTERMSIG(st) == sig { 0 } else { 1 });
+    }
+}
+'''
+
+
+def replay_c16_seq(ctx, obl, info, vals):
+    rc, out = native_run(ctx['scratch'], 'c16h', C16H_MAIN)
+    line = [l for l in out.splitlines() if l.startswith('emulate_default_handler(')]
+    if rc == 1 and line:
+        return 'REPLAYED on the real code (native build of this tree):\n  %s' % line[0]
+    return None
